@@ -302,6 +302,11 @@ theorem pointOpsCorrect_legacy (c : Affine.Crv) (C : Ctx p a b) (M : MatchesL c 
       exact ⟨y, ey, y0, by show y < c.p; rw [M.cp]; exact y1⟩
     · obtain ⟨_, _, hy, _, _, _⟩ := hAf
       exact ⟨Af.y, rfl, hy.1, by show Af.y < c.p; rw [M.cp]; exact hy.2⟩
+  isInfObj A hA hne := by
+    rcases result_cases (validL_rep hA) with ⟨_, h0⟩ | ⟨J, rfl, _, _⟩ | ⟨Af, rfl, _, _⟩
+    · exact absurd h0 hne
+    · rfl
+    · rfl
   fromAffine A hA := by
     cases A with
     | infinity => exact ⟨hA, rfl⟩
